@@ -684,6 +684,7 @@ def discharge(ctx: interp.Ctx, contract: Contract, res: Result, numenv: NumEnv, 
     res.assumptions_used = len(ctx.assumptions)
     backend = res.by_backend
     identities = []  # (ob, how, goal V, used [(hyp, mult)])
+    _PROVERS.clear()
     fallback_budget = [FALLBACK_BUDGET]
     for ob in ctx.obligations:
         side = ob.get("side")
@@ -734,12 +735,18 @@ def _discharge_one(ob, ctx, eq_assm, bool_assm, res, identities, fallback_budget
             identities.append((ob, "nf-identity", g, []))
             return True, None, None
         hyps = [a for a in eq_assm if _implied(a["path"], ob["path"]) and a["fact"] is not g]
-        key = tuple(id(a) for a in hyps)
-        prover = _PROVERS.get(key)
-        if prover is None:
-            _PROVERS.clear()
+        pkey = tuple(b.key() for b in ob["path"])
+        entry = _PROVERS.get(pkey)
+        if entry is None or entry[1][: len(entry[1])] != [id(a) for a in hyps][: len(entry[1])] or len(entry[1]) > len(hyps):
             prover = cert.Prover([a["fact"].p for a in hyps])
-            _PROVERS[key] = prover
+            entry = (prover, [id(a) for a in hyps])
+            _PROVERS[pkey] = entry
+        else:
+            prover, ids = entry
+            for a in hyps[len(ids) :]:
+                prover.add(a["fact"].p)
+                ids.append(id(a))
+        prover = entry[0]
         okc, mult, rem, strategy = prover.prove(g.p)
         if okc:
             used = [(hyps[i], m) for i, m in mult.items()]
